@@ -9,6 +9,8 @@ Exp/EdgePadding.v have a mirror for these two only).
                                      result name in save_name / only wait_for_response rows do
   loose_exit_rows                    a case / bucket that leads nowhere is exported as a loose_exit row carrying its
                                      condition (and an unconnected No Response category gives no edge) / it is dropped
+  pairs_follow_cases                 SwitchRouter.get_exit_edge_pairs gives one edge per case, in case order / one edge per
+                                     category (its first case), in category order
   webhook_headers_packed             FlowContainer.to_row_data_sheet packs webhook.headers into one cell /
                                      spreads it over webhook.headers.<i>.<j> columns
   blank_edges_dropped                FlowParser ignores an all-blank edge that is not the first edge of its row for
@@ -161,6 +163,26 @@ def tables_c04(out, notes):
                      "a behaviour the C04 model has no mirror for")
     out.append(f"Definition loose_exit_rows : bool := {coq_bool(loose)}.")
 
+    # ---- 3b. several cases of one router sharing a category
+    try:
+        from rpft.rapidpro.models.routers import RouterCase
+
+        cp, cu, co = RouterCategory("Positive", "d1"), RouterCategory("Unsure", "d2"), RouterCategory("Other", None)
+        r = SwitchRouter("@input.text", wait_timeout=0, default_category=co, categories=[cp, cu],
+                         cases=[RouterCase("has_any_word", ["yes"], cp.uuid), RouterCase("has_any_word", ["maybe"], cu.uuid),
+                                RouterCase("has_any_word", ["ok"], cp.uuid), RouterCase("has_any_word", ["lost"], "no-such-category")])
+        got_p = [(ex.destination_uuid, e.condition.value, e.condition.name) for ex, e in r.get_exit_edge_pairs("row")]
+    except Exception as e:
+        raise Refuse(f"cannot probe SwitchRouter.get_exit_edge_pairs on cases sharing a category: {type(e).__name__}: {e}")
+    if got_p == [("d1", "yes", "Positive"), ("d2", "maybe", "Unsure"), ("d1", "ok", "Positive"), (None, "", "")]:
+        per_case = True       # one edge per case, in case order
+    elif got_p == [("d1", "yes", "Positive"), ("d2", "maybe", "Unsure"), (None, "", "")]:
+        per_case = False      # one edge per category (its first case), in category order
+    else:
+        raise Refuse(f"get_exit_edge_pairs of a router whose cases share a category gives {got_p!r}: "
+                     "a behaviour the C04 model has no mirror for")
+    out.append(f"Definition pairs_follow_cases : bool := {coq_bool(per_case)}.")
+
     # ---- 4. webhook headers: one packed cell or spread columns
     try:
         from rpft.rapidpro.models.containers import FlowContainer
@@ -224,7 +246,8 @@ def tables_c04(out, notes):
         raise Refuse(f"FlowParser: the row before a padded go_to row leads to {b_dest!r}: a behaviour the C04 model has no mirror for")
     out.append(f"Definition blank_edges_dropped : bool := {coq_bool(dropped)}.")
     notes.append(f"C04: probes group_split_without_cases_exports={gsplit} split_rows_carry_save_name={keeps_name} "
-                 f"loose_exit_rows={loose} webhook_headers_packed={packed} blank_edges_dropped={dropped}")
+                 f"loose_exit_rows={loose} pairs_follow_cases={per_case} webhook_headers_packed={packed} "
+                 f"blank_edges_dropped={dropped}")
 
 
 GENERATORS = [tables_c04]
